@@ -1,5 +1,373 @@
-//! (stub)
+//! C16 — equality, hashing and ordering are consistent and follow the documented order.
+
 use crate::common::*;
-use serde_json::Value;
-pub fn replay(_c: &Value) -> Result<(), String> { Err("not implemented".into()) }
-pub fn run(_ctx: &Ctx) -> Report { Report::new("model_checking") }
+use crate::corpus::ramp;
+use crate::hashobj::*;
+use refmodel::text as rt;
+use serde_json::{json, Value};
+use ssdeep::{DualFuzzyHash, FuzzyHash, LongDualFuzzyHash, LongFuzzyHash, LongRawFuzzyHash, RawFuzzyHash};
+use std::cmp::Ordering;
+
+type Content = (u8, Vec<u8>, Vec<u8>);
+const TYPES: [&str; 6] =
+    ["RawFuzzyHash", "LongRawFuzzyHash", "FuzzyHash", "LongFuzzyHash", "DualFuzzyHash", "LongDualFuzzyHash"];
+
+/// Block-hash strings that stress the order: trailing symbol-0 characters,
+/// proper prefixes, first difference 0 vs 1 vs 63, lengths near 0 and the capacity.
+fn bh_strings(cap: usize, rich: bool) -> Vec<Vec<u8>> {
+    let mut v: Vec<Vec<u8>> = vec![
+        vec![],
+        vec![0],
+        vec![0, 0],
+        vec![0, 0, 0],
+        vec![1],
+        vec![1, 0],
+        vec![1, 0, 0],
+        vec![1, 0, 0, 0],
+        vec![1, 0, 1],
+        vec![1, 1],
+        vec![1, 63],
+        vec![63],
+        vec![63, 0],
+        vec![0, 1],
+        vec![0, 63],
+        vec![2, 5, 9],
+        vec![2, 5, 9, 0],
+        vec![2, 5, 10],
+    ];
+    let full = ramp(cap, 0);
+    v.push(full.clone());
+    v.push(full[..cap - 1].to_vec());
+    let mut f0 = full[..cap - 1].to_vec();
+    f0.push(0);
+    v.push(f0);
+    let mut f63 = full[..cap - 1].to_vec();
+    f63.push(63);
+    v.push(f63);
+    if rich {
+        v.push(vec![0, 0, 0, 1]);
+        v.push(vec![0, 0, 1]);
+        v.push(vec![62, 63, 63]);
+        v.push(ramp(7, 3));
+        v.push(ramp(8, 3));
+        let mut z = ramp(cap - 3, 7);
+        z.extend([0, 0, 0]);
+        v.push(z);
+    }
+    v
+}
+
+fn plain_contents(cap2: usize, norm: bool, rich: bool) -> Vec<Content> {
+    let a = bh_strings(64, rich);
+    let b = bh_strings(cap2, false);
+    let mut out = vec![];
+    for &log in &[0u8, 1, 30] {
+        for (i, x) in a.iter().enumerate() {
+            for (j, y) in b.iter().enumerate() {
+                // all block hash 1 strings with three partners; all block hash 2 strings with the first three bh1
+                if j < 3 || i < 3 || (i + j) % 11 == 0 {
+                    if log != 1 || (i + j) % 3 == 0 {
+                        out.push((log, x.clone(), y.clone()));
+                    }
+                }
+            }
+        }
+    }
+    if norm {
+        for c in out.iter_mut() {
+            c.1 = refmodel::normalize(&c.1);
+            c.2 = refmodel::normalize(&c.2);
+        }
+    }
+    out.sort();
+    out.dedup();
+    out
+}
+
+/// Dual corpus: groups sharing a normalised part with different raw runs in
+/// block hash 1 only, block hash 2 only, both — plus plain differences.
+fn dual_contents(cap2: usize) -> Vec<Content> {
+    let mut out = vec![];
+    let runs = [3usize, 4, 5, 8, 9];
+    for &log in &[0u8, 30] {
+        for &r1 in &runs {
+            for &r2 in &runs {
+                let mut a = vec![9u8];
+                a.extend(vec![0u8; r1]);
+                a.push(11);
+                let mut b = vec![63u8; r2];
+                b.push(0);
+                out.push((log, a.clone(), b.clone()));
+                out.push((log, a.clone(), vec![]));
+                out.push((log, vec![1, 0], b.clone()));
+                // two runs in block hash 1
+                let mut a2 = a.clone();
+                a2.extend(vec![5u8; r2]);
+                out.push((log, a2, vec![0]));
+            }
+        }
+        for x in bh_strings(64, false).into_iter().take(14) {
+            out.push((log, x.clone(), vec![]));
+            out.push((log, vec![], x.iter().copied().take(cap2).collect()));
+        }
+    }
+    out.sort();
+    out.dedup();
+    out
+}
+
+struct Table {
+    ty: usize,
+    contents: Vec<Content>,
+    /// cmp(i, j) as computed by the library
+    cmp: Vec<Vec<Ordering>>,
+}
+
+fn ref_order_plain(a: &Content, b: &Content) -> Ordering {
+    refmodel::order(a.0, &a.1, &a.2, b.0, &b.1, &b.2)
+}
+fn norm_of(c: &Content) -> Content {
+    (c.0, refmodel::normalize(&c.1), refmodel::normalize(&c.2))
+}
+
+fn pair_check<T: Eq + Ord + std::hash::Hash>(
+    ty: usize,
+    x: &T,
+    y: &T,
+    cx: &Content,
+    cy: &Content,
+) -> Result<Ordering, String> {
+    let same_text = cx == cy;
+    let eq = guarded(|| x == y)?;
+    if eq != same_text || guarded(|| y == x)? != same_text || guarded(|| x != y)? == same_text {
+        return Err(format!("== is {} but the texts are {}", eq, if same_text { "equal" } else { "different" }));
+    }
+    if same_text && hash_stream(x) != hash_stream(y) {
+        return Err("equal objects with different Hash output".into());
+    }
+    let c = guarded(|| x.cmp(y))?;
+    let rc = guarded(|| y.cmp(x))?;
+    if c != rc.reverse() {
+        return Err(format!("cmp not antisymmetric: {:?} vs {:?}", c, rc));
+    }
+    if (c == Ordering::Equal) != same_text {
+        return Err(format!("cmp == {:?} but == is {}", c, eq));
+    }
+    if x.partial_cmp(y) != Some(c) || (x < y) != (c == Ordering::Less) || (x > y) != (c == Ordering::Greater) || (x <= y) != (c != Ordering::Greater) {
+        return Err("partial_cmp / comparison operators disagree with cmp".into());
+    }
+    if ty < 4 {
+        let r = ref_order_plain(cx, cy);
+        if c != r {
+            return Err(format!("cmp gives {:?}, the documented order gives {:?}", c, r));
+        }
+    } else {
+        let (nx, ny) = (norm_of(cx), norm_of(cy));
+        if nx != ny {
+            let r = ref_order_plain(&nx, &ny);
+            if c != r {
+                return Err(format!("dual cmp gives {:?}, the normalized parts order as {:?}", c, r));
+            }
+        }
+    }
+    Ok(c)
+}
+
+macro_rules! build_plain {
+    ($ty:ty, $c:expr) => {
+        $c.iter().map(|c| <$ty>::new_from_internals_near_raw(c.0, &c.1, &c.2)).collect::<Vec<$ty>>()
+    };
+}
+
+fn with_objects<R>(ty: usize, contents: &[Content], f: &mut dyn FnMut(&dyn Fn(usize, usize) -> Result<Ordering, String>, &dyn Fn(&[usize]) -> Vec<usize>) -> R) -> R {
+    macro_rules! go {
+        ($objs:expr) => {{
+            let objs = $objs;
+            let pc = |i: usize, j: usize| pair_check(ty, &objs[i], &objs[j], &contents[i], &contents[j]);
+            let sorter = |perm: &[usize]| {
+                let mut v: Vec<(usize, _)> = perm.iter().map(|&i| (i, objs[i].clone())).collect();
+                v.sort_by(|a, b| a.1.cmp(&b.1));
+                v.into_iter().map(|x| x.0).collect::<Vec<usize>>()
+            };
+            f(&pc, &sorter)
+        }};
+    }
+    match ty {
+        0 => go!(build_plain!(RawFuzzyHash, contents)),
+        1 => go!(build_plain!(LongRawFuzzyHash, contents)),
+        2 => go!(build_plain!(FuzzyHash, contents)),
+        3 => go!(build_plain!(LongFuzzyHash, contents)),
+        4 => go!(build_plain!(DualFuzzyHash, contents)),
+        _ => go!(build_plain!(LongDualFuzzyHash, contents)),
+    }
+}
+
+fn cj(c: &Content) -> Value {
+    json!({"log": c.0, "bh1": hex(&c.1), "bh2": hex(&c.2), "text": rt::format(c.0, &c.1, &c.2)})
+}
+fn cparse(v: &Value) -> Option<Content> {
+    Some((v["log"].as_u64()? as u8, unhex(v["bh1"].as_str()?), unhex(v["bh2"].as_str()?)))
+}
+
+pub fn replay(c: &Value) -> Result<(), String> {
+    let ty = TYPES.iter().position(|n| Some(*n) == c["type"].as_str()).ok_or("type")?;
+    let objs: Vec<Content> = c["objects"].as_array().ok_or("objects")?.iter().filter_map(cparse).collect();
+    let mut res = Ok(());
+    with_objects(ty, &objs, &mut |pc, sorter| {
+        res = (|| {
+            match c["kind"].as_str() {
+                Some("pair") => {
+                    pc(0, 1)?;
+                }
+                Some("triple") => {
+                    let (ab, bc, ac) = (pc(0, 1)?, pc(1, 2)?, pc(0, 2)?);
+                    if ab != Ordering::Greater && bc != Ordering::Greater && ac == Ordering::Greater {
+                        return Err("not transitive: a <= b, b <= c, a > c".to_string());
+                    }
+                }
+                Some("sort") => {
+                    let n = objs.len();
+                    let p1: Vec<usize> = (0..n).collect();
+                    let p2: Vec<usize> = (0..n).rev().collect();
+                    let (s1, s2) = (sorter(&p1), sorter(&p2));
+                    let t1: Vec<&Content> = s1.iter().map(|&i| &objs[i]).collect();
+                    let t2: Vec<&Content> = s2.iter().map(|&i| &objs[i]).collect();
+                    if t1 != t2 {
+                        return Err("sorting two permutations gives different sequences".to_string());
+                    }
+                }
+                _ => return Err("bad case".to_string()),
+            }
+            Ok(())
+        })();
+    });
+    res
+}
+
+fn build_table(ty: usize, contents: Vec<Content>, acc: &mut Acc) -> Option<Table> {
+    let n = contents.len();
+    let mut cmp = vec![vec![Ordering::Equal; n]; n];
+    let mut failed = false;
+    with_objects(ty, &contents, &mut |pc, _| {
+        for i in 0..n {
+            for j in 0..n {
+                acc.evaluations += 1;
+                acc.nontrivial += 1;
+                match pc(i, j) {
+                    Ok(c) => {
+                        cmp[i][j] = c;
+                        acc.bump(&format!("{:?}", c));
+                    }
+                    Err(e) => {
+                        failed = true;
+                        acc.violation(
+                            format!("{} pair {} | {}", TYPES[ty], rt::format(contents[i].0, &contents[i].1, &contents[i].2), rt::format(contents[j].0, &contents[j].1, &contents[j].2)),
+                            e,
+                            json!({"kind":"pair","type":TYPES[ty],"objects":[cj(&contents[i]), cj(&contents[j])]}),
+                        );
+                    }
+                }
+            }
+        }
+    });
+    if failed {
+        None
+    } else {
+        Some(Table { ty, contents, cmp })
+    }
+}
+
+pub fn run(ctx: &Ctx) -> Report {
+    let mut rep = Report::new("model_checking");
+    let thorough = ctx.tier == Tier::Thorough;
+    let tables: Vec<(usize, Vec<Content>)> = (0..6)
+        .map(|ty| {
+            let cap2 = if ty % 2 == 0 { 32 } else { 64 };
+            let c = if ty < 4 { plain_contents(cap2, ty >= 2, thorough) } else { dual_contents(cap2) };
+            (ty, c)
+        })
+        .collect();
+    // all pairs (parallel over types)
+    let results: Vec<(Acc, Option<Table>)> = {
+        use rayon::prelude::*;
+        tables
+            .par_iter()
+            .map(|(ty, c)| {
+                let mut acc = Acc::default();
+                acc.sample(json!({"type": TYPES[*ty], "objects": c.len(), "first": cj(&c[c.len() / 2])}));
+                let t = build_table(*ty, c.clone(), &mut acc);
+                (acc, t)
+            })
+            .collect()
+    };
+    let mut good_tables = vec![];
+    for (i, (acc, t)) in results.into_iter().enumerate() {
+        acc.into_report(&mut rep, &format!("all_pairs_{}", TYPES[i]));
+        if let Some(t) = t {
+            good_tables.push(t);
+        }
+    }
+    // all triples: transitivity on the library's own cmp table (sub-corpus in quick)
+    for t in &good_tables {
+        let n = t.contents.len();
+        let idx: Vec<usize> = if thorough { (0..n).collect() } else { (0..n).step_by((n / 70).max(1)).collect() };
+        let m = idx.len();
+        let acc = par_shards(m, |ai, acc| {
+            let a = idx[ai];
+            for &b in &idx {
+                if t.cmp[a][b] == Ordering::Greater {
+                    acc.evaluations += m as u64;
+                    acc.nontrivial += m as u64;
+                    continue;
+                }
+                for &c in &idx {
+                    acc.evaluations += 1;
+                    acc.nontrivial += 1;
+                    if t.cmp[b][c] != Ordering::Greater && t.cmp[a][c] == Ordering::Greater {
+                        acc.violation(
+                            format!("{} triple not transitive", TYPES[t.ty]),
+                            "a <= b and b <= c but a > c".into(),
+                            json!({"kind":"triple","type":TYPES[t.ty],"objects":[cj(&t.contents[a]), cj(&t.contents[b]), cj(&t.contents[c])]}),
+                        );
+                    }
+                }
+            }
+            if ai == 0 {
+                acc.sample(json!({"kind":"triple","type":TYPES[t.ty],"sub_corpus": m}));
+            }
+        });
+        acc.into_report(&mut rep, &format!("all_triples_{}", TYPES[t.ty]));
+        // sorting two permutations of the corpus gives the same sequence, which is non-decreasing
+        let mut acc = Acc::default();
+        acc.evaluations += 1;
+        acc.nontrivial += 1;
+        with_objects(t.ty, &t.contents, &mut |_, sorter| {
+            let p1: Vec<usize> = (0..n).collect();
+            let mut p2: Vec<usize> = (0..n).rev().collect();
+            p2.rotate_left(n / 3);
+            let (s1, s2) = (sorter(&p1), sorter(&p2));
+            let t1: Vec<&Content> = s1.iter().map(|&i| &t.contents[i]).collect();
+            let t2: Vec<&Content> = s2.iter().map(|&i| &t.contents[i]).collect();
+            let mut bad = t1 != t2;
+            for w in s1.windows(2) {
+                if t.cmp[w[0]][w[1]] == Ordering::Greater {
+                    bad = true;
+                }
+            }
+            if bad {
+                acc.violation(
+                    format!("{} sort", TYPES[t.ty]),
+                    "sorting two permutations gives different or non-monotone sequences".into(),
+                    json!({"kind":"sort","type":TYPES[t.ty],"objects": t.contents.iter().map(cj).collect::<Vec<_>>()}),
+                );
+            }
+        });
+        acc.into_report(&mut rep, &format!("sort_{}", TYPES[t.ty]));
+    }
+    rep.set("exhaustive", true);
+    rep.set(
+        "rule",
+        "per type a corpus of objects built to stress the order (block hashes differing only by trailing symbol-0 characters, proper prefixes, first difference 0 / 1 / 63, lengths near 0 and the capacity, three block sizes; dual hashes in groups sharing a normalized part with different raw runs in block hash 1 only / 2 only / both): ALL ordered pairs (== <=> equal text, equal => equal Hash stream, cmp antisymmetric, Equal <=> ==, operators consistent, cmp == documented order; duals with different normalized parts order as those parts) and ALL triples of the corpus (thorough) or of a strided sub-corpus (quick) for transitivity on the library's own cmp results; sorting two permutations.  Pairs / triples are distinct by construction.",
+    );
+    rep
+}
